@@ -6,6 +6,7 @@
 package verifhook
 
 import (
+	"github.com/tableauio/tableau/format"
 	"github.com/tableauio/tableau/internal/confgen"
 	"github.com/tableauio/tableau/internal/confgen/fieldprop"
 	"github.com/tableauio/tableau/internal/excel"
@@ -70,3 +71,9 @@ type TypeInfos = xproto.TypeInfos
 type TypeInfo = xproto.TypeInfo
 
 func NewTypeInfos(protoPackage string) *TypeInfos { return xproto.NewTypeInfos(protoPackage) }
+
+// TableParse runs the real confgen table parser on in-memory rows.
+func TableParse(md protoreflect.MessageDescriptor, bookOpts *tableaupb.WorkbookOptions, sheetOpts *tableaupb.WorksheetOptions,
+	sheetName string, rows [][]string, bookFormat format.Format) (proto.Message, error) {
+	return confgen.VerifTableParse(md, bookOpts, sheetOpts, sheetName, rows, bookFormat)
+}
